@@ -1,9 +1,10 @@
 from common import COMMON_TRUST
 
 PROP = {
-    "generated": [],
+    "generated": ["FormConsts"],
     "lean_modules": ["SwimVerif.Model.FormSchema", "SwimVerif.Model.FormWF", "SwimVerif.Model.FormIO",
-                     "SwimVerif.Model.FormMon", "SwimVerif.Proofs.FormSchema", "SwimVerif.Proofs.FormTypes"],
+                     "SwimVerif.Model.FormMon", "SwimVerif.Proofs.FormSchema", "SwimVerif.Proofs.FormTypes",
+                     "SwimVerif.Generated.FormConsts"],
     "engines": [
         # model of as_value / try_from_value against the real derive output, on written and on mutated values
         {"name": "form-model", "crate": "core", "bin": "sv-c16", "machine": "c16",
@@ -16,15 +17,15 @@ PROP = {
     ],
     "level_text": "Proof: for every schema satisfying the explicit decidable condition tyWF (all combinations of "
                   "tag/rename, header_body, header, attr, slot, body, skip over integer kinds, bool, text, unit, Option, "
-                  "Vec and nested derived structs) and every instance, try_from_value(as_value(x)) = x, also in "
+                  "Vec, nested derived structs, tuple and unit structs, newtypes and enums) and every instance, try_from_value(as_value(x)) = x, also in "
                   "attribute and delegated-body position; omitted fields are exactly those on_absent restores; wrong "
                   "tags / non-records are rejected. Each tyWF condition the derive macro does not enforce is shown "
                   "necessary by a witness the macro accepts (model and real code). The model (layout + recognisers on "
                   "bridge events, incl. tuple structs, newtypes, enums) is tied to the real derive output by "
                   "differential execution over a battery of 63 derived types on written and mutated values; the two "
                   "Recon reading paths and the MessagePack round trip are decided on the implementation by a monitor.",
-    "level_note": "The proc-macro expansion is exercised (battery), not modelled; tuple structs, newtypes and enums are "
-                  "in the executable model and the correspondence but outside the theorem's tyWF fragment; the Recon "
+    "level_note": "The proc-macro expansion is exercised (battery), not modelled; a newtype used as #[form(body)] is in the "
+                  "executable model and the correspondence but outside the theorem's tyWF fragment; the Recon "
                   "parser and the MessagePack byte level are not modelled (implementation-vs-implementation oracles); "
                   "floats, blobs, big integers, generic Value and map fields are exercised implementation-side only.",
     "trusted_base": COMMON_TRUST + [
